@@ -53,13 +53,13 @@ def convertNumeric (v : Num) (t : NT) : Res Num :=
 
 /-- the property text for structured arguments: built element-wise from exact numeric conversions; a number
     given for a Go `string` parameter arrives as its JavaScript ToString; an array hole is `undefined` -/
-def leaf : Leaf := { num := convertNumeric, numStr := jsNumToString, holeIsUndefined := true, exportStrict := false, ptrAnyPanics := false }
+def leaf : Leaf := { num := convertNumeric, numStr := jsNumToString, holeIsUndefined := true }
 
 def convertCallParameter (v : JV) (t : GT) : Res GV := conv leaf v t
 
 /-- container writes use "the same checked conversion" as calls, and failures are script-visible errors,
     never Go panics; `length` assignments act on the JavaScript object's view of the slice -/
-def store : StoreSem := { cv := convertCallParameter, setLenPanics := false }
+def store : StoreSem := { cv := convertCallParameter }
 
 /-! ## struct field lookup: "by field name or json tag, unexported fields hidden, embedded structs searched
     depth-first" – stated as a search over the flattened list of reachable (name, path) bindings -/
